@@ -28,6 +28,16 @@ fn gen_operand(c: &mut dyn Choices) -> E {
         let k = near_constants();
         return E::Lit(k[c.below(k.len() as u32) as usize].to_string());
     }
+    if c.below(16) == 0 {
+        // an operand a hair off an axis: one part 1e-7 … 1e-9 of the other (wedges where textbook formulas cancel)
+        let a = PARTS[c.below(PARTS.len() as u32) as usize];
+        let tiny = ["0.0000001", "0.00000001", "0.000000005", "0.000000001", "0.00000002"][c.below(5) as usize];
+        let (re, im) = if c.below(2) == 0 { (a.to_string(), format!("{}i", tiny)) } else { (tiny.to_string(), format!("{}i", a)) };
+        let re = E::Lit(re);
+        let re = if c.below(2) == 0 { re } else { E::Neg(Box::new(re)) };
+        let body = if c.below(2) == 0 { E::Bin(BinOp::Add, Box::new(re), Box::new(E::Lit(im))) } else { E::Bin(BinOp::Sub, Box::new(re), Box::new(E::Lit(im))) };
+        return E::Group(Br::Round, Box::new(body));
+    }
     if c.below(8) == 7 {
         // a plain real literal (1+X, 2*X, X-1 ... are the shapes log1p/expm1-style helpers look for)
         return E::Lit(["1", "2", "0.5", "3", "10"][c.below(5) as usize].to_string());
